@@ -28,6 +28,8 @@ CONSTANTS
   MaxSpur,     \* how many polls without a wake-up
   Endings,     \* subset of {"eof","ctxdrop","srvdisc","handles","resume"}
   SeiSet,      \* session expiry intervals to consider: subset of {"zero", "finite", "never"}  (C17)
+  ReR,         \* Receive Maximum values the CONNACK of a second connection may announce (C10 across connections)
+  ReM,         \* Maximum Packet Size values it may announce, 0 = none (C12 across connections)
   RecordSched, \* TRUE: keep the behaviour as a harness script in `sched` (simulation export); FALSE: sched stays empty
   Dev          \* deviations switched on
 
@@ -49,6 +51,7 @@ vars == <<S, msgQ, netIn, netEnd, ph, cret, ops, sts, nextPid, nextSid, handles,
 view == <<S, msgQ, netIn, netEnd, ph, cret, ops, sts, nextPid, nextSid, handles, bk, bq2, nIn, nCancel, nSpur, nTag, resumeQ, nResume, woken, g>>
 
 Ops == 1..NOps
+MaxR == CHOOSE r \in ReR \cup {Rmax} : \A q \in ReR \cup {Rmax} : q <= r
 D(d) == d \in Dev
 
 KindOf(k) == CASE k \in {"pub0", "pub1", "pub2", "big1", "huge1"} -> "pub" [] OTHER -> k
@@ -73,7 +76,7 @@ Init ==
   /\ bk = {} /\ bq2 = {} /\ nIn = 0 /\ nCancel = 0 /\ nSpur = 0 /\ nTag = 0
   /\ resumeQ = <<>> /\ nResume = 0
   /\ woken = {CtxT}
-  /\ \E sei0 \in SeiSet : g = [sei |-> sei0, out |-> 0, ids |-> {}, req |-> <<>>, acked |-> {}, subs |-> {}, rx2 |-> {}, exp |-> [o \in Ops |-> <<>>], yielded |-> [o \in Ops |-> {}],
+  /\ \E sei0 \in SeiSet : g = [sei |-> sei0, R |-> Rmax, M |-> Msz, out |-> 0, ids |-> {}, req |-> <<>>, acked |-> {}, subs |-> {}, rx2 |-> {}, exp |-> [o \in Ops |-> <<>>], yielded |-> [o \in Ops |-> {}],
           discW |-> FALSE, causes |-> {}, unacked |-> <<>>, owed |-> <<>>, everSent |-> <<>>, bad |-> {}]
   /\ sched = <<>>
 
@@ -264,13 +267,13 @@ CtxTakeMsg ==
      /\ cret' = out.ret
      /\ woken' = woken \cup (IF D("NoWakeOnComplete") THEN {} ELSE CompWoken(out.comp))
      /\ bk' = IF wrote /\ ackt # "NONE" THEN bk \cup {<<ackt, IF pk.t = "PINGREQ" THEN 0 ELSE pk.id, m.op>>} ELSE bk
-     /\ g' = LET b1 == IF isNewPub /\ g.out + 1 > Rmax THEN {<<"C10", "receive-maximum-exceeded">>} ELSE {}
+     /\ g' = LET b1 == IF isNewPub /\ g.out + 1 > g.R /\ ~(nResume > 0 /\ S.loose) THEN {<<"C10", "receive-maximum-exceeded">>} ELSE {}
                  b2 == IF usesId /\ (pk.id = 0 \/ pk.id \in g.ids) THEN {<<"C11", "identifier-zero-or-in-use">>} ELSE {}
                  b3 == IF wrote /\ pk.t = "PUBLISH" /\ pk.dup # 0 THEN {<<"C06", "dup-on-first-transmission">>} ELSE {}
-                 b4 == IF wrote /\ Msz # 0 /\ pk.len > Msz THEN {<<"C12", "written-over-limit">>} ELSE {}
-                 b5 == IF ~wrote /\ \E i \in 1..Len(out.comp) : out.comp[i].slot.res.kind = "QuotaExceeded" /\ g.out < Rmax
+                 b4 == IF wrote /\ g.M # 0 /\ pk.len > g.M THEN {<<"C12", "written-over-limit">>} ELSE {}
+                 b5 == IF ~wrote /\ \E i \in 1..Len(out.comp) : out.comp[i].slot.res.kind = "QuotaExceeded" /\ g.out < g.R
                        THEN {<<"C10", "refused-below-receive-maximum">>} ELSE {}
-                 b6 == IF ~wrote /\ (Msz = 0 \/ m.pk.len <= Msz) /\ \E i \in 1..Len(out.comp) : out.comp[i].slot.res.kind = "MaximumPacketSizeExceeded"
+                 b6 == IF ~wrote /\ (g.M = 0 \/ m.pk.len <= g.M) /\ \E i \in 1..Len(out.comp) : out.comp[i].slot.res.kind = "MaximumPacketSizeExceeded"
                        THEN {<<"C12", "refused-within-limit">>} ELSE {}
                  b7 == IF ~wrote /\ out.S # S
                        THEN {IF \E i \in 1..Len(out.comp) : out.comp[i].slot.res.kind = "QuotaExceeded"
@@ -391,13 +394,25 @@ ResumeWritesD(St) ==
 Marker(age) == [NoPk EXCEPT !.t = "DECIDE", !.tag = age]
 Deciding == resumeQ # <<>> /\ Head(resumeQ).t = "DECIDE"
 
-Reconnect(age) ==     \* set_up + connect on a new transport; run() not yet polled
+Reconnect(age) ==     \* set_up + connect on a new transport; run() not yet polled.  The CONNACK of the new connection announces its
+                      \* own Receive Maximum and Maximum Packet Size (absent = 65535 / no limit); the exchanges in flight keep their
+                      \* slots.  Deviations: the quota is reset on every CONNACK (before 9cb500e); a CONNACK without Maximum Packet
+                      \* Size leaves the previous limit in force (before 355e8e0)
   /\ "resume" \in Endings /\ ph = "ret" /\ cret # <<>> /\ cret[1].kind = "SocketClosed" /\ nResume < 1
+  /\ \E r2 \in ReR, m2 \in ReM :
+       LET inUse == S.R - S.quota
+           debt  == r2 < inUse
+       IN
+       /\ S' = [S EXCEPT !.R = r2,
+                         !.M = IF D("StaleMsz") /\ m2 = 0 THEN @ ELSE m2,
+                         !.quota = IF D("QuotaResetOnResume") THEN r2 ELSE IF debt THEN 0 ELSE r2 - inUse,
+                         !.loose = @ \/ debt]
+       /\ g' = [g EXCEPT !.R = r2, !.M = m2]
+       /\ Sch([a |-> "resume", age |-> age, sei |-> g.sei, R |-> r2, M |-> m2])
   /\ resumeQ' = <<Marker(age)>>
   /\ ph' = "run" /\ cret' = <<>> /\ netEnd' = "open" /\ netIn' = <<>> /\ bk' = {} /\ nResume' = nResume + 1
   /\ woken' = woken \cup {CtxT}
-  /\ Sch([a |-> "resume", age |-> age, sei |-> g.sei])
-  /\ UNCHANGED <<S, msgQ, ops, sts, nextPid, nextSid, handles, bq2, nIn, nCancel, nSpur, nTag, g>>
+  /\ UNCHANGED <<msgQ, ops, sts, nextPid, nextSid, handles, bq2, nIn, nCancel, nSpur, nTag>>
 
 CtxResumeDecide ==    \* the first thing run() does: abandon an expired session, or queue the retransmissions
   /\ CtxCanStepAny /\ Deciding
@@ -405,11 +420,8 @@ CtxResumeDecide ==    \* the first thing run() does: abandon an expired session,
          expiredRef == SessionExpired(g.sei, 1, IF age = "after" THEN 2 ELSE 0)
          expired == IF D("InvertedExpiry") /\ g.sei = "finite" THEN ~expiredRef ELSE expiredRef
      IN
-     \* an abandoned session starts with a full quota; in a resumed one the exchanges in flight keep their slots (their
-     \* packets are re-sent and are outstanding on the new connection too).  Deviation: the quota is reset to the
-     \* Receive Maximum on every CONNACK (what the code did before 9cb500e)
-     /\ S' = IF expired THEN [InitS(Rmax, Msz) EXCEPT !.rx2 = S.rx2]
-              ELSE IF D("QuotaResetOnResume") THEN [S EXCEPT !.quota = Rmax] ELSE S
+     \* an abandoned session starts with a full quota of the new connection; a resumed one keeps what Reconnect left
+     /\ S' = IF expired THEN [InitS(S.R, S.M) EXCEPT !.rx2 = S.rx2] ELSE S
      /\ ops' = IF expired
                THEN [o \in Ops |-> IF \E i \in 1..Len(S.await) : S.await[i].op = o THEN [ops[o] EXCEPT !.slot = <<Cancelled>>] ELSE ops[o]]
                ELSE ops
@@ -527,7 +539,9 @@ Inv_C06 == ~PropBad("C06")
 Inv_C07 == ~PropBad("C07")
 Inv_C08 == ~PropBad("C08")
 Inv_C09 == ~PropBad("C09")
-Inv_C10 == ~PropBad("C10") /\ g.out <= Rmax /\ (~S.loose => S.quota + g.out = Rmax)     \* never exceeded, never leaks
+Inv_C10 == /\ ~PropBad("C10")
+           /\ (nResume = 0 => g.out <= g.R)                  \* never exceeded (a resumption re-sends what is in flight whatever the new limit)
+           /\ (~S.loose => S.quota + g.out = g.R)            \* never leaks, and what is in flight keeps its slot across a resumption
 Inv_C11 == ~PropBad("C11")
 Inv_C12 == ~PropBad("C12")
 Inv_C13 == ~PropBad("C13") /\ (g.discW => (cret # <<>> \/ ph # "run"))                \* run() ends once DISCONNECT is written
@@ -547,7 +561,7 @@ NoLostWakeup ==
   /\ (ph = "run" /\ cret = <<>> /\ (msgQ # <<>> \/ netIn # <<>> \/ netEnd # "open")) => CtxT \in woken
 
 \* C10: when nothing is in flight any more every slot is back
-QuotaRestored == (~S.loose /\ g.out = 0) => S.quota = Rmax
+QuotaRestored == (~S.loose /\ g.out = 0) => S.quota = g.R
 
 \* C14 (liveness): once the context is gone every future and stream ends
 AllSettled == \A o \in Ops : ops[o].st \notin {"built", "wait1", "wait2"} /\ ~sts[o].pollable
@@ -556,7 +570,7 @@ Live_C14 == (ph = "gone") ~> AllSettled
 Live_C16 == \A o \in Ops : (ops[o].st \in {"wait1", "wait2"} /\ ops[o].slot # <<>>) ~> (ops[o].st \notin {"wait1", "wait2"} \/ ops[o].slot = <<>>)
 
 TypeOK ==
-  /\ S.quota \in 0..Rmax /\ g.out \in 0..(Rmax + 1) /\ nextPid \in 0..IdN
+  /\ S.quota \in 0..MaxR /\ g.out \in 0..(2 * MaxR + 1) /\ nextPid \in 0..IdN
   /\ ph \in {"run", "ret", "gone"} /\ Len(cret) <= 1
 
 \* state constraint: the proviso of C11 (an identifier is not allocated a second time while its first use is outstanding
